@@ -26,6 +26,8 @@ def is_acquire(s: ast.stmt):
 
 def check(ctx):
     repo = ctx.repo
+    ctx.rule("R15.9", "an error in the update or in the recorder is never swallowed: every handler in the solver / operator / recorder modules "
+                      "that does not re-raise is one of the confirmed ones (refused psi update, name retry, cancellation)", 4)
     ctx.rule("R15.8", "the partial solution can be assembled from a file with zero recorded steps: every aggregation of a "
                       "loop-filled list in the record reader is guarded against the empty list", 4)
     ctx.rule("R15.6", "an abandoned update() cannot have touched the state the Runner still holds: solver outputs are fresh arrays", 12)
@@ -44,6 +46,7 @@ def check(ctx):
     from ..effects import fresh_outputs, input_purity
     fresh_outputs(ctx, "R15.6", "after Ctrl-C inside update() the Runner writes (or keeps) the previous step's state, part of which has already been overwritten by the abandoned step: the file's last frame is not the state of any step")
     input_purity(ctx, "R15.7", modules=("tdgl.solver", "tdgl.finite_volume"), min_functions=60, consequence='an update() abandoned by an interrupt has already modified the arrays of the previous state that the Runner goes on to save')
+    swallowed_errors(ctx)
     empty_records(ctx)
     ctx.assume("h5py.File.close() flushes; the OS honours exclusive creation")
     ctx.decline("SWMR semantics, OS-level file locking, asynchronous interrupts between bookkeeping statements")
@@ -439,3 +442,56 @@ def empty_records(ctx):
                    witness={"input": "KeyboardInterrupt injected into the first update of the recorded stage (pause_on_interrupt=False)"})
     if aggs < 2:
         raise AnalysisError("DynamicsData.from_hdf5 no longer aggregates its per-frame lists")
+
+
+# ---------------------------------------------------------------------------
+# R15.9 no new exception-swallowing handler on the run path
+# ---------------------------------------------------------------------------
+# handlers that end without re-raising, confirmed by reading (function, exception class) -> why it is right
+SWALLOWING_OK = {
+    ("tdgl.solver.solver:TDGLSolver.solve_for_psi_squared", "Exception"): "a failed psi solve is the documented refusal (returns None; C02 R02.5, retried by C12 R12.3)",
+    ("tdgl.solver.runner:DataHandler._create_output_file", "(OSError, FileExistsError)"): "name clash: next serial number (C15 R15.1 / R15.3)",
+    ("tdgl.solver.runner:Runner._run_stage", "KeyboardInterrupt"): "Ctrl-C becomes pause / cancellation (C15 R15.4)",
+    ("tdgl.finite_volume.util:get_convex_polygon_area", "QhullError"): "degenerate (collinear) polygon has area 0",
+    ("tdgl.solution.data:array_safe_equals", "TypeError"): "equality helper falls back to NotImplemented",
+    ("tdgl.solver.options:SolverOptions.validate", "KeyError"): "unknown solver name: raises SolverOptionsError unless the string is a member name",
+}
+RUN_PATH_MODULES = ("tdgl.solver.", "tdgl.finite_volume.", "tdgl.solution.data")
+
+
+def swallowed_errors(ctx):
+    repo = ctx.repo
+    seen = set()
+    n = 0
+    for f in repo.all_functions():
+        if not any((f.module.name + ".").startswith(m) or f.module.name == m for m in RUN_PATH_MODULES):
+            continue
+        for t in own_nodes(f.node):
+            if not isinstance(t, ast.Try):
+                continue
+            for h in t.handlers:
+                n += 1
+                # a handler "re-raises" when every path through it ends in raise: approximated by a raise among its top-level
+                # statements or in both arms of a top-level if
+                def ends_in_raise(body):
+                    if not body:
+                        return False
+                    last = body[-1]
+                    if isinstance(last, ast.Raise):
+                        return True
+                    if isinstance(last, ast.If):
+                        return ends_in_raise(last.body) and ends_in_raise(last.orelse)
+                    return False
+                if ends_in_raise(h.body):
+                    continue
+                key = (f.fq, norm(h.type) if h.type is not None else "bare")
+                seen.add(key)
+                ok = key in SWALLOWING_OK
+                ctx.ob("R15.9", f"{f.qual}: `except {key[1]}` does not re-raise ({SWALLOWING_OK.get(key, 'NOT in the confirmed table')[:60]})", ok,
+                       where=f.fq, construct=f"except {key[1]} in {f.qual} swallows the error", loc=loc(f, h),
+                       message=f"{f.qual} catches `{key[1]}` and carries on ({'; '.join(norm(x)[:40] for x in h.body)[:100]}): the failure does not stop the run",
+                       consequence="an I/O error while a frame is written (or an error inside the update) is swallowed: the run continues and the "
+                                   "file silently lacks a frame or holds the state of another step, instead of stopping with the frames recorded so far")
+    if n < 8:
+        raise AnalysisError(f"only {n} exception handlers found on the run path")
+    ctx.note("swallowing_handlers", sorted(f"{a} / {b}" for a, b in seen))
